@@ -35,7 +35,26 @@ GSumBoundary == \/ \E x \in SumInputs16 : Emit1([e |-> "Sum16", in |-> x])
 GMd5 == \E i \in 1..Len(Md5Suite) : Emit1([e |-> "Md5", msg |-> Md5Suite[i][1], mode |-> IF Len(Md5Suite[i][1]) <= 30 THEN "all3" ELSE "all2", seed |-> 1])
 GAes == \E i \in 1..Len(AesSuite) : Emit1([e |-> "Aes", key |-> AesSuite[i][1], in |-> AesSuite[i][2]])
                                      \/ Emit1([e |-> "Aes", key |-> AesSuite[i][1], in |-> AesSuite[i][3]])
-GNext == hist = <<>> /\ (GB64Enc \/ GB64Dec \/ GHexEnc \/ GHexDec \/ GScalEnc \/ GScalDec \/ GUrl \/ GSums \/ GSumBoundary \/ GMd5 \/ GAes)
+\* call shapes: every function that takes (pointer, length) is called with its input at every misalignment 0..7 of the
+\* pointer (the block still ends where the input ends) for every short length 0..8, and with the output misaligned likewise;
+\* AES also in place (input block = output block).  The expected result does not depend on the shape.
+Short(n, a) == [i \in 1..n |-> (a + 37 * i) % 256]
+ShortInputs == {Short(n, a) : n \in 0..8, a \in {0, 219}}
+Offs == 0..7
+GPlacement ==
+  \/ \E x \in ShortInputs, o \in Offs, k \in {"Sum8", "Sum16", "Crc16", "Crc32"} : Emit1([e |-> k, in |-> x, ioff |-> o])
+  \/ \E x \in ShortInputs \ {<<>>}, o \in Offs : Emit1([e |-> "B64Enc", in |-> x, v |-> "buf", cap |-> B64EncLen(Len(x)), ioff |-> o, ooff |-> 7 - o])
+  \/ \E x \in ShortInputs \ {<<>>}, o \in Offs, v \in {"buf", "cstr"} :
+        Emit1([e |-> "B64Dec", in |-> B64Enc(x), v |-> v, cap |-> Len(x), ioff |-> o, ooff |-> (o + 3) % 8])
+  \/ \E x \in ShortInputs, o \in Offs : Emit1([e |-> "HexEnc", in |-> x, up |-> FALSE, delim |-> <<>>, ioff |-> o])
+  \/ \E x \in ShortInputs, o \in Offs : Emit1([e |-> "HexDecBuf", in |-> HexEnc(x, TRUE, <<>>), cap |-> Len(x), ooff |-> o])
+  \/ \E d \in Boundaries, o \in Offs :
+        \/ Emit1([e |-> "ScalDec", in |-> ScalEnc(d), ioff |-> o])
+        \/ Emit1([e |-> "ScalEnc", d |-> d, cap |-> ScalLen(d), ooff |-> o])
+  \/ \E x \in {Short(n, 219) : n \in {0, 1, 2, 3, 63, 64, 65}}, o \in Offs : Emit1([e |-> "Md5", msg |-> x, mode |-> "all2", seed |-> 1, ioff |-> o, ooff |-> 7 - o])
+  \/ \E i \in 1..Len(AesSuite), o \in Offs, al \in BOOLEAN, j \in 2..3 :
+        Emit1([e |-> "Aes", key |-> AesSuite[i][1], in |-> AesSuite[i][j], alias |-> al, ioff |-> o, ooff |-> (o + 5) % 8])
+GNext == hist = <<>> /\ (GPlacement \/ GB64Enc \/ GB64Dec \/ GHexEnc \/ GHexDec \/ GScalEnc \/ GScalDec \/ GUrl \/ GSums \/ GSumBoundary \/ GMd5 \/ GAes)
 GSpec == GInit /\ [][GNext]_gvars
 Emit == IF Len(hist) >= 1 THEN PrintT("BEH " \o ToJson(hist)) /\ FALSE ELSE TRUE
 =============================================================================
